@@ -131,3 +131,53 @@ void h_split_tcp(void) {
   if (expect.n >= 2 && expect.e[1].n >= 3 && line.d[0] != '"' ) { CANARY("two arguments"); }
   if (expect.n == 1 && line.n >= 6 && line.d[0] == '"' && line.d[2] == ' ' && line.d[3] == ' ') { CANARY("quoted argument with two blanks"); }
 }
+
+/* ---- HTTP request accumulation and first line extraction: the request arrives in two chunks with CR LF line ends; it is complete with the empty line;
+   the request text handed on is the first line without the " HTTP/x" suffix; header lines never become part of it ---- */
+static inline void put(vstr* s, char c) { if (s->n < VSTR_CAP) { s->d[s->n] = c; s->n = s->n + 1; s->d[s->n] = 0; } }
+void h_http_line(void) {
+  struct Request rq; rq.m_request = vstr_new(); rq.m_isHttp = 1; rq.m_listening = nondet_bool(); g_sscanf_calls = 0;
+  vstr uri = nondet_vstr(); __CPROVER_assume(vstr_valid(&uri) && uri.n <= 3);
+  for (size_t k = 0; k <= VSTR_CAP; k++) { if (k < uri.n) __CPROVER_assume(uri.d[k] != '\n' && uri.d[k] != '\r' && uri.d[k] != 0 && uri.d[k] != '%'); else __CPROVER_assume(uri.d[k] == 0); }
+  char v = nondet_char(); __CPROVER_assume(v != '\n' && v != '\r' && v != 0);
+  _Bool complete = nondet_bool(), with_suffix = nondet_bool();
+  /* first chunk: "<uri> HTTP/<v>\r\n", second chunk: "\r\n" (complete) or a header character (incomplete) */
+  char c1[VSTR_CAP + 1]; size_t n1 = 0;
+  for (size_t k = 0; k < 3; k++) { if (k < uri.n) { c1[n1] = uri.d[k]; n1 = n1 + 1; } }
+  if (with_suffix) { c1[n1] = ' '; c1[n1 + 1] = 'H'; c1[n1 + 2] = 'T'; c1[n1 + 3] = 'T'; c1[n1 + 4] = 'P'; c1[n1 + 5] = '/'; c1[n1 + 6] = v; n1 = n1 + 7; }
+  c1[n1] = '\r'; c1[n1 + 1] = '\n'; c1[n1 + 2] = 0;
+  _Bool r1 = Request_add(&rq, c1);
+  __CPROVER_assert(!r1 || (rq.m_listening && 0), "[C18] an HTTP request is not complete before the empty line");
+  char c2[3]; if (complete) { c2[0] = '\r'; c2[1] = '\n'; c2[2] = 0; } else { c2[0] = 'h'; c2[1] = 0; }
+  _Bool r2 = Request_add(&rq, c2);
+  __CPROVER_assert(r2 == complete, "[C18] an HTTP request is complete exactly with the empty line that ends the header");
+  if (complete) {
+    __CPROVER_assert(rq.m_request.n == uri.n, "[C18] the request text of an HTTP request is its first line without the HTTP version suffix (length)");
+    size_t j = nondet_size(); __CPROVER_assume(j < 3);
+    if (j < uri.n) { __CPROVER_assert(rq.m_request.d[j] == uri.d[j], "[C18] the request text of an HTTP request is its first line without the HTTP version suffix (content)"); }
+    if (uri.n == 3 && with_suffix) { CANARY("GET line with suffix"); }
+  } else { CANARY("incomplete request"); }
+}
+
+/* ---- TCP line accumulation: a command is complete with its line end, which is removed (CR dropped) ---- */
+void h_tcp_line(void) {
+  struct Request rq; rq.m_request = vstr_new(); rq.m_isHttp = 0; rq.m_listening = nondet_bool();
+  vstr cmd = nondet_vstr(); __CPROVER_assume(vstr_valid(&cmd) && cmd.n <= 4);
+  for (size_t k = 0; k <= VSTR_CAP; k++) { if (k < cmd.n) __CPROVER_assume(cmd.d[k] != '\n' && cmd.d[k] != '\r' && cmd.d[k] != 0); else __CPROVER_assume(cmd.d[k] == 0); }
+  _Bool crlf = nondet_bool(), complete = nondet_bool();
+  char c1[VSTR_CAP + 1]; size_t n1 = 0;
+  for (size_t k = 0; k < 4; k++) { if (k < cmd.n) { c1[n1] = cmd.d[k]; n1 = n1 + 1; } }
+  if (complete) { if (crlf) { c1[n1] = '\r'; n1 = n1 + 1; } c1[n1] = '\n'; n1 = n1 + 1; }
+  c1[n1] = 0;
+  _Bool r = Request_add(&rq, c1);
+  if (complete) {
+    __CPROVER_assert(r, "[C18] a command line is complete with its line end");
+    __CPROVER_assert(rq.m_request.n == cmd.n, "[C18] the command handed on is the line without its line end (length)");
+    size_t j = nondet_size(); __CPROVER_assume(j < 4);
+    if (j < cmd.n) { __CPROVER_assert(rq.m_request.d[j] == cmd.d[j], "[C18] the command handed on is the line without its line end (content)"); }
+    if (cmd.n == 4 && crlf) { CANARY("command with CR LF"); }
+  } else {
+    __CPROVER_assert(r == (cmd.n == 0 && rq.m_listening), "[C18] without line end a command is not complete (an empty request of a listening client is a poll for updates)");
+    CANARY("incomplete command");
+  }
+}
